@@ -20,6 +20,7 @@ pub static PROP: Prop = Prop {
         "the plain Vec/union-find model of gluing is the specification of the pushout",
         "the isomorphism decision procedure is sound (validated against brute force in the selftest sub-checks)",
     ],
+    fixed: None,
 };
 
 fn check(t: &mut Tape, ctx: &mut Ctx) -> CheckResult {
